@@ -156,6 +156,18 @@ def run(cx):
     if up:
         ins = cx.calls(up, r'RecordSet::insert$')
         cx.guard('C12.G1', ins, {'same-class': r'^eq:DNSClass\(arg2\.dns_class,arg4\)$', 'no-CNAME-conflict': r'^!(<Range<.*> as )?Iterator>?::any\(BTreeMap::range\(arg1\.records,'}, expect=1, fn=up)
+        # the boolean upsert returns is the ONLY "zone content changed" signal update_records has for added RRs (it decides the
+        # serial increment): it must be true exactly when the modified RRset was stored back (`*records = Arc::new(clone)`);
+        # a store followed by a computed / false result (e.g. "only when the set grew": CNAME/SOA replace in place) changes the
+        # zone without advancing the serial
+        stb = {bi for bi, b in enumerate(up.blocks) for st in b['s']
+               if st[0] == '=' and isinstance(st[1], list) and st[1][1:] == ['*'] and st[2][0] == 'use'}
+        cx.floor('C12.S1', len(stb), 1, 'blocks of upsert that store the modified RRset back into the zone map')
+        after = cx.reachable_from(up, stb) | stb if stb else set()
+        for r_ in cx.returns(up, r'.'):
+            if r_.bb in after:
+                cx.check('C12.S1', r_.term == 'true', up.path, r_.key(), 'stored-rrset=>reports-changed', 'returned after the store: ' + r_.term[:120], r_.loc)
+        cx.must_pass('C12.S1', up, cx.true_returns(up), via_blocks=stb, what='reports-changed=>rrset-was-stored')
     # RecordSet rules
     ri = cx.fn('C12.G1', 'hickory_proto::rr::rr_set::RecordSet::insert')
     if ri:
